@@ -452,6 +452,99 @@ fn commit_onchain(
 // evidence bookkeeping on the registrations the compressor announces
 // --------------------------------------------------------------------------
 
+/// distinct non-default registry-typed values a block's transactions carry
+/// (address, asset id, contract id, script code, predicate code); evidence only.
+fn referenced_values(block: &Block) -> [std::collections::HashSet<u64>; 5] {
+    let mut r: [std::collections::HashSet<u64>; 5] = Default::default();
+    fn ins(inputs: &[Input], r: &mut [std::collections::HashSet<u64>; 5]) {
+        for i in inputs {
+            match i {
+                Input::Contract(c) => {
+                    if c.contract_id != Default::default() {
+                        r[2].insert(hash64(&c.contract_id));
+                    }
+                }
+                Input::CoinPredicate(c) => {
+                    if c.predicate != fuel_core_types::fuel_tx::input::PredicateCode::default() {
+                        r[4].insert(hash64(&c.predicate));
+                    }
+                }
+                Input::MessageCoinPredicate(c) => {
+                    if c.predicate != fuel_core_types::fuel_tx::input::PredicateCode::default() {
+                        r[4].insert(hash64(&c.predicate));
+                    }
+                }
+                Input::MessageDataPredicate(c) => {
+                    if c.predicate != fuel_core_types::fuel_tx::input::PredicateCode::default() {
+                        r[4].insert(hash64(&c.predicate));
+                    }
+                }
+                _ => {}
+            }
+        }
+    }
+    fn outs(outputs: &[Output], r: &mut [std::collections::HashSet<u64>; 5]) {
+        for o in outputs {
+            match o {
+                Output::Coin { to, asset_id, .. } | Output::Change { to, asset_id, .. } => {
+                    if *to != Default::default() {
+                        r[0].insert(hash64(to));
+                    }
+                    if *asset_id != Default::default() {
+                        r[1].insert(hash64(asset_id));
+                    }
+                }
+                Output::ContractCreated { contract_id, .. } => {
+                    if *contract_id != Default::default() {
+                        r[2].insert(hash64(contract_id));
+                    }
+                }
+                _ => {}
+            }
+        }
+    }
+    for tx in block.transactions() {
+        match tx {
+            Transaction::Script(t) => {
+                use fuel_core_types::fuel_tx::field::Script as _;
+                if !t.script().is_empty() {
+                    r[3].insert(hash64(t.script()));
+                }
+                ins(t.inputs(), &mut r);
+                outs(t.outputs(), &mut r);
+            }
+            Transaction::Create(t) => {
+                ins(t.inputs(), &mut r);
+                outs(t.outputs(), &mut r);
+            }
+            Transaction::Upgrade(t) => {
+                ins(t.inputs(), &mut r);
+                outs(t.outputs(), &mut r);
+            }
+            Transaction::Upload(t) => {
+                ins(t.inputs(), &mut r);
+                outs(t.outputs(), &mut r);
+            }
+            Transaction::Blob(t) => {
+                ins(t.inputs(), &mut r);
+                outs(t.outputs(), &mut r);
+            }
+            Transaction::Mint(m) => {
+                use fuel_core_types::fuel_tx::field::{
+                    MintAssetId as _,
+                };
+                if m.input_contract().contract_id != Default::default() {
+                    r[2].insert(hash64(&m.input_contract().contract_id));
+                }
+                if *m.mint_asset_id() != Default::default() {
+                    r[1].insert(hash64(m.mint_asset_id()));
+                }
+            }
+        }
+    }
+    r
+}
+
 const KEYSPACES: [(&str, MetadataKey); 5] = [
     ("address", MetadataKey::Address),
     ("asset_id", MetadataKey::AssetId),
@@ -476,7 +569,7 @@ fn note_registrations(
     report: &Report,
     views: &mut [KeyspaceView; 5],
     c: &VersionedCompressedBlock,
-) -> usize {
+) -> [usize; 5] {
     let r = c.registrations();
     let lists: [Vec<(u32, u64)>; 5] = [
         r.address.iter().map(|(k, v)| (k.as_u32(), hash64(v))).collect(),
@@ -485,13 +578,13 @@ fn note_registrations(
         r.script_code.iter().map(|(k, v)| (k.as_u32(), hash64(v))).collect(),
         r.predicate_code.iter().map(|(k, v)| (k.as_u32(), hash64(v))).collect(),
     ];
-    let mut total = 0;
+    let mut total = [0usize; 5];
     for (ks, list) in lists.iter().enumerate() {
         let mut sorted = list.clone();
         sorted.sort();
         let view = &mut views[ks];
         for (k, vh) in sorted {
-            total += 1;
+            total[ks] += 1;
             report.count(&format!("c33.registrations.{}", KEYSPACES[ks].0));
             if let Some(old) = view.live.get(&k) {
                 if *old != vh {
@@ -736,8 +829,18 @@ fn run_session(
                 }
                 Ok(Ok(c)) => c,
             };
-        let n_reg = note_registrations(report, &mut views, &compressed);
+        let regs = note_registrations(report, &mut views, &compressed);
+        let n_reg: usize = regs.iter().sum();
         report.add("c33.registrations", n_reg as u64);
+        let refs = referenced_values(&block);
+        for ks in 0..5 {
+            report.add("c33.registry_value_refs", refs[ks].len() as u64);
+            // referenced values that needed no new key: served by a still valid older key
+            report.add(
+                "c33.reuse_hits",
+                refs[ks].len().saturating_sub(regs[ks]) as u64,
+            );
+        }
         if n_reg == 0 {
             report.count("c33.blocks_without_new_registrations");
         }
@@ -889,7 +992,7 @@ fn c33(args: &Args, report: &Report) {
         .and_then(|s| s.parse().ok())
         .unwrap_or(0);
     let shards = args.by_tier(16usize, 64);
-    let sessions = args.by_tier(6u64, 40);
+    let sessions = args.by_tier(24u64, 120);
     if let Some(rp) = read_replay(args) {
         let seed = rp["shard_seed"].as_u64().unwrap_or(0);
         let session = rp["session"].as_u64().unwrap_or(0);
@@ -903,10 +1006,11 @@ fn c33(args: &Args, report: &Report) {
             }
         });
         if selftest == 0 {
-            report.require("c33.blocks_ok", args.by_tier(2500, 60_000));
+            report.require("c33.blocks_ok", args.by_tier(10_000, 200_000));
             report.require("c33.blocks_ok.executed_form", 800);
-            report.require("c33.sessions_completed", args.by_tier(80, 2000));
-            report.require("c33.registrations", 5000);
+            report.require("c33.sessions_completed", args.by_tier(330, 7000));
+            report.require("c33.registrations", 20_000);
+            report.require("c33.reuse_hits", 5000);
             for (name, _) in KEYSPACES {
                 report.require(&format!("c33.registrations.{name}"), 300);
             }
